@@ -380,6 +380,21 @@ scaling: ;
         free(re); free(ce);
     }
     free(pat); free(perm);
+    if (getenv("HX_DUMP_MATRIX")) {     /* debugging aid: triplets of the generated matrix */
+        FILE *f = fopen(getenv("HX_DUMP_MATRIX"), "w");
+        if (f) {
+            fprintf(f, "%ld %ld %ld\n", (long)A->m, (long)A->n, (long)A->nnz);
+            for (int_t j = 0; j < A->n; ++j) for (int_t k = A->colptr[j]; k < A->colptr[j + 1]; ++k) {
+                ref_t v = E2R(A->val[k]);
+#if IS_COMPLEX
+                fprintf(f, "%ld %ld %.17Lg %.17Lg\n", (long)A->rowind[k], (long)j, creall(v), cimagl(v));
+#else
+                fprintf(f, "%ld %ld %.17Lg 0\n", (long)A->rowind[k], (long)j, (long double)v);
+#endif
+            }
+            fclose(f);
+        }
+    }
     return 0;
 }
 
@@ -392,6 +407,17 @@ void gen_rhs(rng_t *r, int_t n, int_t nrhs, int_t ldb, elem_t *B, const char *mo
                 else B[(size_t)j * ldb + i] = MKE(rng_sym(r), rng_sym(r));
             } else B[(size_t)j * ldb + i] = MKE(-7777.0, 7777.0);   /* padding sentinel */
         }
+    if (getenv("HX_DUMP_RHS")) {
+        FILE *f = fopen(getenv("HX_DUMP_RHS"), "w");
+        if (f) { for (int_t i = 0; i < n; ++i) {
+            ref_t v = E2R(B[i]);
+#if IS_COMPLEX
+            fprintf(f, "%.17Lg %.17Lg\n", creall(v), cimagl(v));
+#else
+            fprintf(f, "%.17Lg 0\n", (long double)v);
+#endif
+        } fclose(f); }
+    }
 }
 
 /* exactly singular "onesblock" family: elimination reaches an all-zero column at the second
